@@ -30,6 +30,7 @@ fn main() {
         "c18" => c18::gen(&args),
         "c19" => c19::gen(&args),
         "surface" => surface::gen(&args),
+        "pipe" => pd::gen_pipe(&args),
         "c01" => solar::gen_c01(&args),
         "c02" => solar::gen_c02(&args),
         "c03" => solar::gen_c03(&args),
